@@ -34,6 +34,9 @@ const (
 )
 
 func run(c *vf.Ctx) {
+	// The process-local zone is moved away from UTC so that a conversion which depends on
+	// time.Local (instead of UTC) shows; instants are unaffected.
+	time.Local = time.FixedZone("verif+0530", 5*3600+1800)
 	if err := rt.SelfTest(); err != nil {
 		c.Fatalf("%v", err)
 	}
@@ -387,7 +390,9 @@ func ldapConv(c *vf.Ctx, T lattice) {
 	}
 	var e int64 = -1
 	vf.Try(func() { e = ldap.ConvertLDAPTimeStampToUnixTimeStamp("") })
-	c.Check("C15/ldap/ConvertLDAPTimeStampToUnixTimeStamp/empty-string-is-zero", e == 0, func() string { return fmt.Sprintf(`ConvertLDAPTimeStampToUnixTimeStamp("") = %d want 0 (documented)`, e) })
+	c.Check("C15/ldap/ConvertLDAPTimeStampToUnixTimeStamp/empty-string-is-zero", e == 0, func() string {
+		return fmt.Sprintf(`ConvertLDAPTimeStampToUnixTimeStamp("") = %d want 0 (documented)`, e)
+	})
 	e = -1
 	vf.Try(func() { e = ldap.ConvertLDAPDurationToSeconds("") })
 	c.Check("C15/ldap/ConvertLDAPDurationToSeconds/empty-string-is-zero", e == 0, func() string { return fmt.Sprintf(`ConvertLDAPDurationToSeconds("") = %d want 0 (documented)`, e) })
